@@ -172,6 +172,25 @@ class Runner:
         r['status'] = resp.status
         return r
 
+    def do_setctx(self, op):
+        """SetContextState through the real consumer service client and the tutorial role provider's handler"""
+        csc = self.cons.context_service_client
+        CA = self.pm_types.ContextAssociation
+        amap = {'Assoc': CA.ASSOCIATED, 'Dis': CA.DISASSOCIATED, 'No': CA.NO_ASSOCIATION, 'Pre': CA.PRE_ASSOCIATION}
+        proposals = []
+        for handle, assoc, n in op['proposals']:
+            st = csc.mk_proposed_context_object(op['dh'], self.real_handle(handle))
+            if assoc is not None:
+                st.ContextAssociation = amap[assoc]
+            mdibrun.set_payload(st, n, self.pm_types)
+            proposals.append(st)
+        fut = csc.set_context_state(op['op_handle'], proposals)
+        res = fut.result(timeout=10)
+        state = res.InvocationInfo.InvocationState
+        state = getattr(state, 'value', state)
+        if state != 'Fin':
+            raise RuntimeError(f'InvocationState={state}')
+
     def do_reseq(self, op):
         import uuid as _u
         self.pm.sequence_id = _u.UUID(int=0x5E0000 + op['n']).urn
@@ -308,7 +327,7 @@ class Runner:
             res = 'ok'
             try:
                 {'state': self.do_state, 'ctx': self.do_ctx, 'location': self.do_location,
-                 'descr': self.do_descr, 'reseq': self.do_reseq, 'reload': self.do_reload,
+                 'descr': self.do_descr, 'setctx': self.do_setctx, 'reseq': self.do_reseq, 'reload': self.do_reload,
                  'nop': lambda op: None}[op['k']](op)
             except Exception as ex:  # noqa: BLE001
                 res = exc_code(ex)
